@@ -149,7 +149,7 @@ func TestC10(t *testing.T) {
 		return
 	}
 	K := ev.Pick(16, 100)
-	ev.Check(t, "c10_normalise", ev.N(3000, 100000), func(t *rapid.T) c10Case {
+	ev.Check(t, "c10_normalise", ev.N(24000, 300000), func(t *rapid.T) c10Case {
 		n := rapid.IntRange(0, 40).Draw(t, "empty")
 		if n == 0 {
 			return c10Case{}
